@@ -109,9 +109,7 @@ returns the outputs in order. -/
 def runFrom (step : PeriodicState → Int → Int → Nat → PeriodicState × PeriodicOut)
     (s : PeriodicState) (t : Int) : List PIn → List PeriodicOut
   | [] => []
-  | i :: is =>
-    let (s', o) := step s t i.d i.k
-    o :: runFrom step s' (t + 1) is
+  | i :: is => (step s t i.d i.k).2 :: runFrom step (step s t i.d i.k).1 (t + 1) is
 
 /-- Timesteps (counted from `t`) at which the output is an `execute`. -/
 def execTimes (t : Int) : List PeriodicOut → List Int
